@@ -170,6 +170,11 @@ func HarnessC04Queries() {
 	}
 	pr := pairs[verifChoice("pair", len(pairs))]
 	x1, x2 := pr[0], pr[1]
+	// with or without GROUP BY in both goroutines (first grouped use of a column in flight)
+	var gb []string
+	if verifBool("groupby") {
+		gb = []string{"a"}
+	}
 	var wg sync.WaitGroup
 	var c1, c2 uint64
 	var e1, e2 error
@@ -179,7 +184,7 @@ func HarnessC04Queries() {
 	wg.Add(2)
 	go func() {
 		defer wg.Done()
-		r, err := idx.Execute(&Query{Expr: x1.e})
+		r, err := idx.Execute(&Query{Expr: x1.e, GroupBy: gb})
 		e1 = err
 		if err == nil {
 			c1 = r.Count
@@ -188,7 +193,7 @@ func HarnessC04Queries() {
 	}()
 	go func() {
 		defer wg.Done()
-		r, err := idx.Execute(&Query{Expr: x2.e})
+		r, err := idx.Execute(&Query{Expr: x2.e, GroupBy: gb})
 		e2 = err
 		if err == nil {
 			c2 = r.Count
